@@ -1,5 +1,6 @@
 """C13 - Any query gets a well-formed reply or none; the server never panics."""
 import os
+from checklib import cbool, clist
 from props.corecase import file_to_coq, shrink_file, BACKENDS, response_class
 
 ID = "C13"
@@ -13,18 +14,27 @@ RULE = ("arbitrary wire-valid query messages (packed by miekg/dns and unpacked a
         "header flag; no OPT / EDNS version 0 / other versions; option lists with NSID, COOKIE, PADDING, unknown codes "
         "and client-subnet options of both families, family 0, all prefix lengths; max-answer 0..8; four clients; "
         "against root-zone, root-delegation, empty and generated databases on CDB / RocksDB v1 / RocksDB v2; two cases "
-        "per database (EDNS version 0 or none / other versions); non-trivial = distinct (database class, query name, "
+        "per database (EDNS version 0 or none / other versions); plus a UDP class: a database with large record sets "
+        "(14-16 NS with glue, TXT sets of 1-16 strings, 12 MX with addresses, a 1500-byte TXT), 70 queries without EDNS / "
+        "with EDNS sizes 0, 512, 600, 700-900, 1232, 4096, with and without client-subnet options (v4 /24, v6 /56, v6 /128, "
+        "behind a COOKIE) and DO, sent over a UDP and a TCP writer; non-trivial = distinct (database class, query name, "
         "type, class, EDNS shape, response class)")
 TRUSTED_BASE = [
     "messages are wire-valid by construction (miekg Pack then Unpack); zero-question messages are not sent: fbserver/serve_mux.go answers them without calling the handler",
-    "packability of the reply is observed on the implementation (Pack / Unpack of what was written), not modelled; size and truncation are not modelled (TCP remote address)",
+    "packability of the reply is observed on the implementation (Pack / Unpack of what was written), not modelled; the size clause is observed on the implementation (length of Pack() of what a UDP writer received, TC, record counts against the TCP reply), the model stops before SizeAndDo / Scrub",
     "client location and echoed ECS option are oracles observed per backend",
 ]
 ASSUMPTIONS = ["one question per message"]
 
 
+def udp_to_coq(u):
+    return "mkU %d %d %s %s %d %d %s %s" % (u["limit"], u["len"], cbool(u["written"]), cbool(u["tc"]), u["nrecs"],
+                                          u["nrecs_tcp"], cbool(bool(u["panic"])), cbool(u["packerr"]))
+
+
 def to_coq(c):
-    return file_to_coq(c)
+    udp = [clist([udp_to_coq(q["udpobs"][b]) for b in BACKENDS]) for q in c["queries"] if q.get("udpobs")]
+    return "(mkC %s %s)" % (file_to_coq(c), clist(udp))
 
 
 def nontrivial(c):
@@ -32,8 +42,12 @@ def nontrivial(c):
     for q in c["queries"]:
         o = (q.get("obs") or {}).get("cdb")
         if o:
-            keys.append([c["class"], q["name"], q["type"], q["class"], q["has_opt"], q["version"],
-                         "panic" if o["panic"] else response_class(o["reply"])])
+            k = [c["class"], q["name"], q["type"], q["class"], q["has_opt"], q["version"],
+                 "panic" if o["panic"] else response_class(o["reply"])]
+            u = (q.get("udpobs") or {}).get("cdb")
+            if u:
+                k += [u["limit"], u["tc"], 0 <= u["limit"] - u["len"] <= 24]
+            keys.append(k)
     return keys or None
 
 
